@@ -1,0 +1,50 @@
+//go:build verif
+
+package history
+
+// Contracts for the verifier in /verif (comment-only file; build tag verif).
+
+//@ package github.com/pancsta/asyncmachine-go/pkg/history
+
+// RecOK: a stored record carries the tracked times of every tracked state.
+//@ pred RecOK(m *Memory, r *MemoryRecord) := r != nil && r.Time != nil && len(r.Time.MTimeTracked) == len(m.Cfg.TrackedStates)
+
+//@ func (m *BaseMemory) Index(states am.S) (result []int)
+//@   props C17
+//@   requires nn: m.Cfg != nil
+//@   ensures  def: len(result) == len(states) && (forall i int :: 0 <= i && i < len(states) ==> result[i] == index(m.Cfg.TrackedStates, states[i]))
+//@   loop 1 invariant def: len(result) == len(states) && (forall j int :: 0 <= j && j < i ==> result[j] == index(m.Cfg.TrackedStates, states[j]))
+
+//@ func (m *BaseMemory) IsTracked(states am.S) (r bool)
+//@   props C17
+//@   requires nn: m.Cfg != nil
+//@   ensures  def: r <==> subset(states, m.Cfg.TrackedStates)
+//@   loop 1 invariant all: forall j int :: 0 <= j && j < idx1 ==> mem(m.Cfg.TrackedStates, states[j])
+
+//@ func (m *BaseMemory) ValidateQuery(query Query) (err error)
+//@   props C17
+//@   requires nn: m.Cfg != nil
+//@   ensures  active:      err == nil ==> subset(query.Active, m.Cfg.TrackedStates)
+//@   ensures  activated:   err == nil ==> subset(query.Activated, m.Cfg.TrackedStates)
+//@   ensures  inactive:    err == nil ==> subset(query.Inactive, m.Cfg.TrackedStates)
+//@   ensures  deactivated: err == nil ==> subset(query.Deactivated, m.Cfg.TrackedStates)
+//@   ensures  mtime:       err == nil ==> subset(query.Start.MTimeStates, m.Cfg.TrackedStates) && len(query.Start.MTimeStates) == len(query.Start.MTime) && len(query.End.MTimeStates) == len(query.End.MTime)
+//@   loop 1 invariant tracked: forall j int :: 0 <= j && j < idx1 ==> mem(m.Cfg.TrackedStates, names[j])
+
+// FindLatest returns, newest first, records of the store that satisfy the state
+// conditions of the query.
+//@ func (m *Memory) FindLatest(ctx context.Context, retTx bool, limit int, query Query) (ret []*MemoryRecord, err error)
+//@   props C17
+//@   abstracts ctx.Err() and the machine's Time/StateNames are opaque interface calls; human-time comparisons are opaque (time package)
+//@   requires nn:   m.BaseMemory != nil && m.Cfg != nil && m.Mach != nil && ctx != nil && m.Ctx != nil
+//@   requires recs: forall i int :: 0 <= i && i < len(m.db) ==> RecOK(m, m.db[i])
+//@   requires locks: unlocked(m.mx)
+//@   ensures  from_db:  forall k int :: 0 <= k && k < len(ret) ==> ret[k] != nil && mem(m.db, ret[k])
+//@   ensures  active:   forall k int, s string :: 0 <= k && k < len(ret) && mem(query.Active, s) ==> odd(ret[k].Time.MTimeTracked[index(m.Cfg.TrackedStates, s)])
+//@   ensures  inactive: forall k int, s string :: 0 <= k && k < len(ret) && mem(query.Inactive, s) ==> !odd(ret[k].Time.MTimeTracked[index(m.Cfg.TrackedStates, s)])
+//@   ensures  limit:    limit > 0 ==> len(ret) <= limit
+//@   loop 1 invariant recs: -1 <= i && i < len(db) && (forall j int :: 0 <= j && j < len(db) ==> RecOK(m, db[j])) && m.Cfg != nil
+//@   loop 1 invariant from_db: forall k int :: 0 <= k && k < len(ret) ==> ret[k] != nil && mem(db, ret[k])
+//@   loop 1 invariant active:   forall k int, s string :: 0 <= k && k < len(ret) && mem(query.Active, s) ==> odd(ret[k].Time.MTimeTracked[index(m.Cfg.TrackedStates, s)])
+//@   loop 1 invariant inactive: forall k int, s string :: 0 <= k && k < len(ret) && mem(query.Inactive, s) ==> !odd(ret[k].Time.MTimeTracked[index(m.Cfg.TrackedStates, s)])
+//@   loop 1 invariant limit:    limit > 0 ==> len(ret) < limit
